@@ -30,11 +30,31 @@ struct Gen {
     s.fill = (int)r.below(SIM_FILL_NKINDS);
     if (!s.dseed) s.dseed = r.next() | 1;
     s.owner = cur_task;
+    if (cfg.adjacent_slots && s.type != T_I128 && !(s.type == T_BIG && s.mod >= 0 && P.modules[s.mod].type == 1) && !s.liballoc && r.chance(10, 100)) {
+      uint64_t est = est_bytes(s);
+      s.reserve = ((2 * est + 127) / 64) * 64;
+      if (s.reserve > (1u << 20)) s.reserve = 0;
+      s.reserve_side = (int)r.below(2);
+    }
     P.slots.push_back(s);
     M.v.push_back(MVal());
     ver.push_back(0);
     return (int)P.slots.size() - 1;
   }
+  uint64_t est_bytes(const Slot& s) const {
+    const bool ntt = s.mod >= 0 && P.modules[s.mod].type == 1;
+    switch (s.type) {
+      case T_ZV: return s.size ? ((s.size - 1) * s.sl + s.n) * 8 : 0;
+      case T_BIG: return s.size * s.n * (ntt ? 16 : 8);
+      case T_DFT: return s.size * s.n * (ntt ? 32 : 8);
+      case T_PPOL: return s.n * 8;
+      case T_PMAT: case T_MAT: return s.size * s.sl * s.n * 8;
+      case T_I32: case T_U32: return s.n * 4;
+      case T_I128: return s.n * 16;
+      default: return s.n * 8;
+    }
+  }
+  std::vector<uint8_t> host_used;  // per slot: its reserve already hosts a neighbour
   int pick_pattern() {
     uint64_t x = r.below(100);
     if (x < 55) return PAT_RANDOM;
@@ -161,6 +181,22 @@ struct Gen {
     std::string why;
     if (!M.admissible(c, &why)) return false;
     const OpInfo& oi = op_info[c.op];
+    if (cfg.adjacent_slots && oi.nslots >= 2 && oi.roles[0] == 'o') {
+      // a fresh output may be carved right next to one of the call's sources
+      Slot& x = P.slots[c.s[0]];
+      bool fresh = ver[c.s[0]] == 0 && !x.input && x.neighbor_of < 0 && !x.reserve && !x.liballoc && x.type != T_I128 &&
+                   !(x.type == T_BIG && x.mod >= 0 && P.modules[x.mod].type == 1);
+      for (int k = 1; fresh && k < oi.nslots; ++k) {
+        int y = c.s[k];
+        if (y == c.s[0] || y >= c.s[0]) continue;
+        if (host_used.size() <= (size_t)y) host_used.resize(P.slots.size(), 0);
+        if (P.slots[y].reserve && !host_used[y] && est_bytes(x) <= P.slots[y].reserve && (est_bytes(x) % 8) == 0 && (est_bytes(P.slots[y]) % 8) == 0) {
+          x.neighbor_of = y;
+          host_used[y] = 1;
+          break;
+        }
+      }
+    }
     std::vector<uint32_t> sv;
     for (int k = 0; k < oi.nslots; ++k) sv.push_back(ver[c.s[k]]);
     M.apply(c);
@@ -465,7 +501,9 @@ struct Gen {
       }
       case OP_SMALL_PRODUCT: {
         int a = new_input_zv(mod, 1, small_bits(n)), b = new_input_zv(mod, 1, small_bits(n));
-        set(0, new_out(T_ZV, mod, 1), 1);
+        // operands are copied into scratch before the output is written: res may be one of them (acc <- s*acc chains)
+        uint64_t al = r.below(100);
+        set(0, al < 12 ? a : al < 24 ? b : new_out(T_ZV, mod, 1), 1);
         set(1, a, 1);
         set(2, b, 1);
         break;
